@@ -40,4 +40,12 @@ def handle_cell(cell: Cell, titles: Dict[str, int]):
         else:
             cell.row = None
 
+    for name, coordinate in (('column', cell.column), ('row', cell.row)):
+        # a position is a whole number from 0 (or nothing: a whole column): 2.0, 5.5, -1 or True would become member names such as
+        # _0_5.5_7 / _0_2_-1, which no class can define, or fail inside a list index
+        if coordinate is None and name == 'row':
+            continue
+        if isinstance(coordinate, bool) or not isinstance(coordinate, int) or coordinate < 0:
+            raise E2PyclCellException(f'Invalid {name} of {cell}')
+
     cell._handled_identifiers = True
